@@ -380,9 +380,8 @@ def space(quick):
         for form in ("list", "dataclass", "plainclass"):
             flat(form, 1, "full")
             flat(form, 2, "full")
-        flat("list", 3, "lean3:first")
-        flat("dataclass", 3, "lean3")
-        flat("plainclass", 3, "lean3", max_dev=2, tag="-reduced")
+        for form in ("list", "dataclass", "plainclass"):
+            flat(form, 3, "lean3", max_dev=2, tag="-reduced")
         flat("dict", 1, "full")
         flat("dict", 2, "lean")
         flat("dict", 3, "lean3:deep", max_dev=2, tag="-reduced")
@@ -466,8 +465,8 @@ def explore(ctx):
             "vectors that differ from int in at most 1 position (15 of 64); everything else unreduced"
             if ctx.quick
             else "4-parameter functions: all 57 default/kind patterns x the type vectors that differ from int in at "
-            "most 2 positions (323 of 4096); plainclass/3 and dict/3: type vectors that differ from int in at most 2 "
-            "positions (169 of 512); classes with 3 parameters (1+2, 2+1): the 2-parameter side restricted to type "
+            "most 2 positions (323 of 4096); list/3, dataclass/3, plainclass/3 and dict/3: type vectors that differ from "
+            "int in at most 2 positions (169 of 512); classes with 3 parameters (1+2, 2+1): the 2-parameter side restricted to type "
             "vectors that differ from int in at most 1 position (15 of 64)",
         },
         exercised_bindings=sorted(cover),
